@@ -373,4 +373,9 @@ theorem inv_step (g : Global) (e : Event) (hinv : Inv g) : Inv (step g e).1 := b
               simp only [decide_eq_true_eq]
               exact hng _ (hback q (hf q hq hv) hs' hv)
 
+theorem reachable_inv {g : Global} (h : Reachable Variant.fixed g) : Inv g := by
+  induction h with
+  | init size ef hb tt => exact inv_init size ef hb tt
+  | step e _ ih => exact inv_step _ e ih
+
 end Raft
